@@ -174,6 +174,12 @@ class Curve(BSpline.Curve):
         # Set new weighted control points
         self.set_ctrlpts(ctrlptsw)
 
+    def reverse(self):
+        """ Reverses the curve """
+        super(Curve, self).reverse()
+        # The unweighted control points and the weights are cached: they must follow the new point order
+        self.init_cache()
+
     def reset(self, **kwargs):
         """ Resets control points and/or evaluated points.
 
